@@ -29,10 +29,10 @@ func drawKinds(t *rapid.T, label string) ([]*mocrelay.Nip11Kind, []any, bool, bo
 	var exp []any
 	single, pair := false, false
 	for i := 0; i < n; i++ {
-		from := rapid.SampledFrom([]int{0, 1, 5, 4, 30000, 65535}).Draw(t, fmt.Sprintf("%s%dfrom", label, i))
+		from := rapid.SampledFrom([]int{0, 1, 5, 4, 30000, 65535, 1<<53 + 1, 1<<62 + 3, -1}).Draw(t, fmt.Sprintf("%s%dfrom", label, i))
 		to := from
 		if rapid.Bool().Draw(t, fmt.Sprintf("%s%dpair", label, i)) {
-			to = rapid.SampledFrom([]int{0, 1, 9, 40000, 65535, 7}).Draw(t, fmt.Sprintf("%s%dto", label, i))
+			to = rapid.SampledFrom([]int{0, 1, 9, 40000, 65535, 7, 1<<53 + 3, 1<<63 - 1}).Draw(t, fmt.Sprintf("%s%dto", label, i))
 		}
 		ks = append(ks, &mocrelay.Nip11Kind{From: from, To: to})
 		if from == to {
